@@ -1586,3 +1586,317 @@ def rule_vrow1(ctx):
             "vertices() disagree and delete_vertex / recurrent on it raise "
             "KeyError after the other two views have been edited",
             instance=inst)
+
+
+_CONSUMERS = {"list", "tuple", "set", "sorted", "sum", "max", "min", "any",
+              "all", "dict", "frozenset", "deque", "len"}
+
+
+def rule_iter1(ctx, rels):
+    r = ctx.r
+    r.rule("ITER1", "a parameter documented as an ITERABLE is walked once: "
+                    "a function that needs it twice materialises it first "
+                    "(`x = list(x)`). Two consuming passes over the "
+                    "parameter itself (list(p) + [.. for g in p]) see an "
+                    "empty second pass for a generator -- "
+                    "free_automaton(rep.asym_gens()) silently builds an "
+                    "automaton with no inverse letters. A parameter that is "
+                    "indexed or measured (p[i], len(p)) is a sequence and "
+                    "is not judged")
+    n = 0
+    for rel in rels:
+        mod = ctx.p.module_by_rel(rel)
+        for f in ctx.p.all_functions:
+            if f.module is not mod:
+                continue
+            from .common import path_conditions
+            for p in f.params:
+                if p in ("self", "cls"):
+                    continue
+                stores = [x for x in ast.walk(f.node)
+                          if isinstance(x, ast.Name) and x.id == p
+                          and isinstance(x.ctx, ast.Store)]
+                if stores:
+                    continue                 # rebound: not the raw parameter
+                sized = any(
+                    (isinstance(x, ast.Subscript)
+                     and isinstance(x.value, ast.Name) and x.value.id == p)
+                    or (isinstance(x, ast.Call) and dotted(x.func) == "len"
+                        and x.args and isinstance(x.args[0], ast.Name)
+                        and x.args[0].id == p)
+                    or (isinstance(x, ast.Attribute)
+                        and isinstance(x.value, ast.Name) and x.value.id == p)
+                    for x in ast.walk(f.node))
+                passes = []
+                for x in ast.walk(f.node):
+                    if isinstance(x, ast.For) and isinstance(x.iter, ast.Name) \
+                            and x.iter.id == p:
+                        passes.append(x.iter)
+                    elif isinstance(x, ast.comprehension) \
+                            and isinstance(x.iter, ast.Name) \
+                            and x.iter.id == p:
+                        passes.append(x.iter)
+                    elif isinstance(x, ast.Call) \
+                            and dotted(x.func) in _CONSUMERS - {"len"} \
+                            and any(isinstance(a, ast.Name) and a.id == p
+                                    for a in x.args):
+                        passes.append(x)
+                if len(passes) < 2:
+                    continue
+                n += 1
+                r.analysed(f)
+                if sized:
+                    r.ok("ITER1", f"{f.qualname}:{p}", loc(f, passes[0]),
+                         p, "indexed / measured: a sequence by use")
+                    continue
+                # two passes in one statement, or in statements none of which
+                # sits in an arm the other excludes
+                pc = path_conditions(f.node)
+                from .common import stmt_of
+                sts = [stmt_of(x, f.module.parents) for x in passes]
+                excl = False
+                if len({id(s) for s in sts}) > 1:
+                    conds = [set((ast.dump(t), pol) for t, pol in
+                                 pc.get(id(s), [])) for s in sts]
+                    for i in range(len(conds)):
+                        for j in range(i + 1, len(conds)):
+                            if any((t, not pol) in conds[j]
+                                   for t, pol in conds[i]):
+                                excl = True
+                if excl:
+                    r.ok("ITER1", f"{f.qualname}:{p}", loc(f, passes[0]), p,
+                         "the passes are on exclusive branches")
+                    continue
+                r.violation(
+                    "ITER1", f"{f.fq}|{p}", loc(f, passes[1]),
+                    f"{len(passes)} passes over `{p}`",
+                    f"{f.qualname} consumes its parameter `{p}` "
+                    f"{len(passes)} times (lines "
+                    f"{', '.join(str(x.lineno) for x in passes)}) without "
+                    "materialising it: for a generator -- "
+                    "words.asym_gens(..), Representation.asym_gens(), any "
+                    "`(g for g in ..)` -- the second pass is empty, so the "
+                    "inverse letters are missing and the automaton accepts "
+                    "positive words only, with no error",
+                    instance=f"{f.qualname}:{p}")
+    if n == 0:
+        r.ok("ITER1", "modules", ",".join(rels), "",
+             "no parameter is consumed twice")
+
+
+def rule_md1(ctx):
+    r = ctx.r
+    r.rule("MD1", "an FSA owns its list of start states: the constructor "
+                  "stores a COPY (`list(start_vertices)`), never the "
+                  "argument itself. The default is one shared `[]`, and "
+                  "rename_generators(inplace=False), automaton_multiple and "
+                  "remove_long_paths hand `self.start_vertices` (or the "
+                  "default) to the new automaton: with the argument stored "
+                  "by reference, changing the start state of the result "
+                  "changes accepts() / enumerate_words() of the original "
+                  "and of every automaton built with the default")
+    f = ctx.p.get_function(FSA_REL, "FSA.__init__")
+    r.analysed(f)
+    a = f.node.args
+    pos = a.posonlyargs + a.args
+    mutable_default = {}
+    for p, d in zip(pos[len(pos) - len(a.defaults):], a.defaults):
+        if isinstance(d, (ast.List, ast.Dict, ast.Set)) or (
+                isinstance(d, ast.Call) and dotted(d.func) in (
+                    "list", "dict", "set")):
+            mutable_default[p.arg] = dotted(d)
+    n = 0
+    for st in ast.walk(f.node):
+        if not (isinstance(st, ast.Assign) and len(st.targets) == 1
+                and isinstance(st.targets[0], ast.Attribute)
+                and dotted(st.targets[0].value) == "self"):
+            continue
+        v = st.value
+        if not (isinstance(v, ast.Name) and v.id in f.params
+                and v.id != "self"):
+            continue
+        # rebound to a copy before the store?
+        rebound = [s for s in ast.walk(f.node) if isinstance(s, ast.Assign)
+                   and any(isinstance(t, ast.Name) and t.id == v.id
+                           for t in s.targets) and s.lineno < st.lineno]
+        copied = any(isinstance(s.value, ast.Call) and (
+            dotted(s.value.func) in ("list", "tuple", "copy.copy",
+                                     "copy.deepcopy", "sorted")
+            or (isinstance(s.value.func, ast.Attribute)
+                and s.value.func.attr == "copy"))
+            or isinstance(s.value, (ast.ListComp, ast.List))
+            for s in rebound)
+        if v.id not in mutable_default and not any(
+                isinstance(x, ast.Attribute) and x.attr == st.targets[0].attr
+                for x in ()):
+            # only parameters that are containers by declaration are judged
+            continue
+        n += 1
+        if copied:
+            r.ok("MD1", f"FSA.__init__:{st.targets[0].attr}", loc(f, st),
+                 dotted(st)[:80], "stored after a copy")
+        else:
+            r.violation(
+                "MD1", f"{f.fq}|{st.targets[0].attr}", loc(f, st),
+                dotted(st)[:80],
+                f"`self.{st.targets[0].attr} = {v.id}` keeps the caller's "
+                f"list (default: the one shared `{mutable_default[v.id]}` "
+                "of the def): FSA({}) automata all share it, and "
+                "rename_generators(inplace=False) / automaton_multiple give "
+                "results whose start_vertices IS the original's -- "
+                "`R.start_vertices[0] = v` moves the start state of the "
+                "original too", instance=f"FSA.__init__:{st.targets[0].attr}")
+    if n == 0:
+        r.ok("MD1", "FSA.__init__", loc(f, f.node), "",
+             "no container parameter with a mutable default is stored bare")
+
+
+def _inner_loop_vars(fn):
+    """[(loop, {names bound by a loop that iterates over something bound by
+    an enclosing loop of fn})]"""
+    out = []
+
+    def names(t):
+        return {x.id for x in ast.walk(t) if isinstance(x, ast.Name)}
+
+    def visit(node, outer):
+        for ch in ast.iter_child_nodes(node):
+            if isinstance(ch, ast.For):
+                tv = names(ch.target)
+                if names(ch.iter) & outer:
+                    out.append((ch, tv))
+                visit(ch, outer | tv)
+            elif isinstance(ch, (ast.FunctionDef, ast.Lambda)):
+                continue
+            else:
+                visit(ch, outer)
+    visit(fn, set())
+    return out
+
+
+def _closure_evidence(fn):
+    """Statements of fn that register an edge TARGET as a vertex: inside a
+    loop over the entries of a row (a loop nested in the loop over the rows),
+    (a) `D[w] = ..` / `D.setdefault(w, ..)` with D an out / label view (or a
+    local stored into one) and w the inner variable, (b) `L.append(w)` /
+    `S.add(w)` on a local that fn returns."""
+    ev = []
+    view_locals = set()
+    returned = set()
+    for st in ast.walk(fn):
+        if isinstance(st, ast.Assign) and len(st.targets) == 1 \
+                and view_of(st.targets[0]) in ("out", "graph") \
+                and isinstance(st.value, ast.Name):
+            view_locals.add(st.value.id)
+        if isinstance(st, ast.Return) and isinstance(st.value, ast.Name):
+            returned.add(st.value.id)
+
+    def is_view(e):
+        return view_of(e) in ("out", "graph") or (
+            isinstance(e, ast.Name) and e.id in view_locals)
+    for loop, tv in _inner_loop_vars(fn):
+        for n in ast.walk(loop):
+            if isinstance(n, ast.Assign):
+                for t in n.targets:
+                    if isinstance(t, ast.Subscript) and is_view(t.value) \
+                            and isinstance(t.slice, ast.Name) \
+                            and t.slice.id in tv:
+                        ev.append(n)
+            if isinstance(n, ast.Call) and isinstance(n.func, ast.Attribute):
+                a0 = n.args[0] if n.args else None
+                if n.func.attr == "setdefault" and is_view(n.func.value) \
+                        and isinstance(a0, ast.Name) and a0.id in tv:
+                    ev.append(n)
+                if n.func.attr in ("append", "add") \
+                        and isinstance(n.func.value, ast.Name) \
+                        and n.func.value.id in returned \
+                        and isinstance(a0, ast.Name) and a0.id in tv:
+                    ev.append(n)
+                if n.func.attr == "add_vertices" and any(
+                        isinstance(x, ast.Name) and x.id in tv
+                        for x in ast.walk(n)):
+                    ev.append(n)
+    return ev
+
+
+def rule_hid1(ctx):
+    r = ctx.r
+    r.rule("HID1", "BOTH constructor routes close the vertex set under edge "
+                   "targets: a state that occurs only as the head of an edge "
+                   "(a dead end) gets its own row. The label->target route "
+                   "does it through _hidden_vertices; the target->labels "
+                   "route (graph_dict=False) must do the same. Otherwise the "
+                   "incoming view knows a vertex the other two do not: "
+                   "accepts() follows the word into it, enumerate_words and "
+                   "remove_long_paths raise KeyError, and a later "
+                   "add_vertices([t]) wipes t's incoming edges")
+    cls = fsa_class(ctx)
+    f = cls.methods.get("__init__")
+    if f is None:
+        raise AnalysisError("FSA.__init__ has vanished")
+    r.analysed(f)
+    disp = None
+    for st in f.node.body:
+        if isinstance(st, ast.If) and st.orelse and any(
+                isinstance(x, ast.Name) and x.id == "graph_dict"
+                for x in ast.walk(st.test)):
+            disp = st
+    if disp is None:
+        r.note("HID1", loc(f, f.node), "FSA.__init__",
+               "the constructor no longer dispatches on `graph_dict` with "
+               "two arms (not judged)")
+        return
+    mod_funcs = {g.name: g for g in ctx.p.all_functions
+                 if g.module is f.module and g.cls is None}
+
+    def route_functions(stmts):
+        seen, todo, out = set(), [], []
+        for s in stmts:
+            todo.extend(c for c in ast.walk(s) if isinstance(c, ast.Call))
+        depth = {id(c): 0 for c in todo}
+        while todo:
+            c = todo.pop()
+            g = None
+            if isinstance(c.func, ast.Attribute) and isinstance(
+                    c.func.value, ast.Name) and c.func.value.id in (
+                        "self", "FSA", "cls"):
+                g = cls.methods.get(c.func.attr)
+            elif isinstance(c.func, ast.Name):
+                g = mod_funcs.get(c.func.id)
+            if g is None or g.fq in seen:
+                continue
+            seen.add(g.fq)
+            out.append(g)
+            if depth[id(c)] < 2:
+                for c2 in ast.walk(g.node):
+                    if isinstance(c2, ast.Call):
+                        depth[id(c2)] = depth[id(c)] + 1
+                        todo.append(c2)
+        return out
+    for label, arm in (("label->target (graph_dict=True)", disp.body),
+                       ("target->labels (graph_dict=False)", disp.orelse)):
+        ev = []
+        holder = ast.Module(body=list(arm), type_ignores=[])
+        ev += [(f, e) for e in _closure_evidence(holder)]
+        funcs = route_functions(arm)
+        for g in funcs:
+            r.analysed(g)
+            ev += [(g, e) for e in _closure_evidence(g.node)]
+        inst = f"FSA.__init__:{label.split()[0]}"
+        if ev:
+            g, e = ev[0]
+            r.ok("HID1", inst, loc(g, e), dotted(e)[:80],
+                 f"route {label}: edge targets are registered in "
+                 f"{g.qualname}")
+        else:
+            r.violation(
+                "HID1", f"{f.fq}|{label.split()[0]}", loc(f, arm[0]),
+                f"route {label}",
+                f"the {label} route of the constructor "
+                f"({', '.join(g.name for g in funcs) or 'no helper'}) never "
+                "registers a vertex that occurs only as an edge target: "
+                "FSA({0: {1: ['a']}}, graph_dict=False) has vertex 1 in the "
+                "incoming view but not in vertices() / graph_dict; the word "
+                "'a' is accepted, enumerate_words(1) raises KeyError(1), and "
+                "add_vertices([1]) then drops the edge 0->1 from the "
+                "incoming view", instance=inst)
